@@ -33,7 +33,7 @@ func c02case(c GCase, a *run.Acc) {
 	} else {
 		gd = gram.NewGuard(env.Base)
 		gd.MaxEvents, gd.MaxCalls = 150000, 150000
-		b = gram.Build(g, &gram.Hooks{Budget: gd.LeafTick, Inside: gd.Inside, Outside: gd.Outside, MemoExpr: c.MemoExpr, ShareLeaves: true,
+		b = gram.Build(g, &gram.Hooks{Budget: gd.LeafTick, Inside: gd.Inside, Outside: gd.Outside, MemoExpr: c.MemoExpr, ShareLeaves: true, NameOf: c01names(g),
 			// the activation bound is claimed for EVERY memoized parser, also the extra wrappers around sub-expressions
 			UnderMemo: func(e *gram.Expr, p parsley.Parser) parsley.Parser { return gd.Inside(1000+e.ID, p) }})
 		c02cache = c01built{g: g, memo: c.MemoExpr, gd: gd, b: b}
@@ -136,6 +136,10 @@ func c02plan(tier string, seed int64) []run.Job {
 		jobs = append(jobs, run.Job{Family: "hidden", Seed: seed*100000 + 55000 + int64(i), N: per / 4, P: map[string]int{"inputs": 6, "maxlen": 9}})
 		// ... with zero-width marker nodes of the user's own (Pos() == NilPos) among the nullable prefixes
 		jobs = append(jobs, run.Job{Family: "hidden", Seed: seed*100000 + 56000 + int64(i), N: per / 4, P: map[string]int{"inputs": 6, "maxlen": 9, "marks": 1}})
+		// recursion that runs through SuppressError (around half of the references, left-recursive ones included)
+		jobs = append(jobs, run.Job{Family: "mutual", Seed: seed*100000 + 51000 + int64(i), N: per / 4, P: map[string]int{"inputs": 6, "maxlen": 12, "suppress": 1}})
+		jobs = append(jobs, run.Job{Family: "hidden", Seed: seed*100000 + 54000 + int64(i), N: per / 4, P: map[string]int{"inputs": 6, "maxlen": 9, "suppress": 1}})
+		jobs = append(jobs, run.Job{Family: "random", Seed: seed*100000 + 53000 + int64(i), N: per / 4, P: map[string]int{"strat": 0, "maxlen": 12, "inputs": 6, "suppress": 1}})
 		// recursion reached through whitespace-trimming wrappers (LeftTrim/RightTrim in all four modes)
 		jobs = append(jobs, run.Job{Family: "random", Seed: seed*100000 + 70000 + int64(i), N: per / 2, P: map[string]int{"strat": 0, "maxlen": 10, "inputs": 6, "trims": 1, "memoexpr": 0}})
 	}
